@@ -204,10 +204,14 @@ CONFIGS_QUICK = [
     {"transport": "udp", "keep_alive": True, "T": 2, "retries": 1},
     {"transport": "tcp", "keep_alive": False, "T": 2, "retries": 1},
     {"transport": "tcp", "keep_alive": True, "T": 2, "retries": 1},
-    {"transport": "aa55", "keep_alive": False, "T": 2, "retries": 1},
-    {"transport": "tcp", "keep_alive": True, "T": 2, "retries": 1, "tx_start": 0xFFFD},
     {"transport": "udp", "keep_alive": False, "T": 3, "retries": 0},
     {"transport": "tcp", "keep_alive": True, "T": 3, "retries": 0},
+]
+# single-request-only configurations (C04): the AA55 framing (ES runtime command over UDP) and a Modbus/TCP
+# transaction counter that starts just below its 16-bit wrap
+CONFIGS_C04_EXTRA = [
+    {"transport": "aa55", "keep_alive": False, "T": 2, "retries": 1},
+    {"transport": "tcp", "keep_alive": True, "T": 2, "retries": 1, "tx_start": 0xFFFE},
 ]
 ALPHABET = ["drop", "answer", "short_garbage", "bad_checksum", "exception", "two_fragments", "lone_fragment", "duplicate",
             "peer_closes", "send_error", "sym_garbage", "dup_fragment", "dup_exception"]
@@ -217,7 +221,7 @@ ALPHABET_QUICK = ["drop", "answer", "short_garbage", "exception", "two_fragments
 
 
 def tasks(tier, seed):
-    cfgs = list(CONFIGS_QUICK)
+    cfgs = list(CONFIGS_QUICK) + CONFIGS_C04_EXTRA
     alphabet = ALPHABET if tier == "thorough" else ALPHABET_QUICK
     if tier == "thorough":
         for tr in ("udp", "tcp"):
